@@ -406,19 +406,33 @@ def run(spec):
             after = s.get_value()
             tag = 'store_value'
         else:
+            # one more variable, directly under the root, reached through two ports of the process: two
+            # updates to one variable in one batch, with the variable's own updater
+            rv = {'accumulate': (10, 1, 2, 13), 'nonnegative_accumulate': (10, -15, 4, 4), 'set': (10, 1, 2, None)}
+            rupd = ['accumulate', 'nonnegative_accumulate', 'set'][len(spec['batch']) % 3]
+            r0, ra, rb, rexp = rv[rupd]
+
             class Batch(Process):
                 def ports_schema(self):
-                    return copy.deepcopy(schema)
+                    sch = copy.deepcopy(schema)
+                    sch['ra'] = {'_default': r0, '_updater': rupd}
+                    sch['rb'] = {'_default': r0, '_updater': rupd}
+                    return sch
 
                 def next_update(self, timestep, states):
-                    return update if not self.parameters.get('done') else {}
+                    return dict(update, ra=ra, rb=rb) if not self.parameters.get('done') else {}
             proc = Batch({'timestep': 1.0})
             topo = {k: (k,) for k in schema}
+            topo['ra'] = topo['rb'] = ('rootv',)
             e = Engine(processes={'p': proc}, topology={'p': topo}, display_info=False, emitter='null')
             other_before = e.state.get_path(('other', 'w')).get_value()
             e.update(1.0)
             after = e.state.get_value()
             tag = 'engine_value'
+            V.check('engine_value', after['rootv'] == rexp if rexp is not None else after['rootv'] in (ra, rb),
+                    lambda: ('root-level variable (updater %s) with two updates %r, %r in one batch: %r -> %r' % (
+                        rupd, ra, rb, r0, after['rootv'])))
+            after = {k: v for k, v in after.items() if k != 'rootv'}
         for p, var in var_of.items():
             got = val(after, p)
             exp = model_state[p]
